@@ -175,6 +175,26 @@ def rule_breaking(rng):
     bad[j] = rng.choice([-1, -good[j], 0, -7])
     wrap = rng.choice([tuple, list, lambda v: np.asarray(v)])
     full = np.zeros(tuple(g * o for g, o in zip(good, other)))
+    # operations that keep their bracketed axes (flip / roll / softmax / log_softmax / sort): the output's brackets must be the input's
+    out += [
+        ("preserve_output_brackets_differ", "softmax", f"{A} [{B}] -> {A} [{B} {C}]", [z(A, B)], {C: 2}),
+        ("preserve_output_brackets_differ", "flip", f"{A} [{B}] -> {A} [{B}] [{C}]", [z(A, B)], {C: 2}),
+        ("preserve_output_brackets_differ", "log_softmax", f"[{A}] {B} -> [{A} {C}] {B}", [z(A, B)], {C: 3}),
+        ("preserve_output_brackets_differ", "roll", f"{A} [{B}] -> {A} [{C} {B}]", [z(A, B)], {C: 2, "shift": 1}),
+        ("preserve_output_brackets_differ", "sort", f"{A} [{B}] -> {A} [{B} {C}]", [z(A, B)], {C: 2}),
+        ("preserve_output_brackets_differ", "softmax", f"{A} [{B}] -> {A} [{C}]", [z(A, B)], {C: sz[B]}),
+    ]
+    # sizes for an axis under an ellipsis whose number of repetitions cannot be met (sequence too long / too short, rank mismatch)
+    m = rng.randint(2, 3)
+    sizes = [rng.choice([2, 3]) for _ in range(m)]
+    grid = np.zeros(tuple(2 * v for v in sizes))
+    out += [
+        ("kw_sequence_length_mismatch", "id", f"({A} {B})... -> {A}... {B}...", [grid], {B: tuple(sizes) + (2,)}),
+        ("kw_sequence_length_mismatch", "id", f"{C} {A}... -> {A}... {C}", [np.zeros((2,) + tuple(sizes))], {A: list(sizes) + [4]}),
+        ("kw_sequence_length_mismatch", "id", f"{C} ({A} {B})... {D} -> {C} {A}... {B}... {D}", [np.zeros((2,) + grid.shape + (3,))], {B: tuple(sizes)[:-1] + (2, 2, 2)}),
+        ("kw_ellipsis_rank_mismatch", "mean", f"{C} [{A}...] {D}", [np.zeros((4,))], {A: 2}),
+        ("kw_ellipsis_rank_mismatch", "add", f"{A}..., {A}... -> {A}...", [np.zeros((4, 4)), np.zeros((4, 4, 4))], {A: 4}),
+    ]
     # the same rule-breaking updates with empty coordinate / update tensors: still ill-formed, still to be rejected
     out += [
         ("empty_update_marked_sets_differ", "set_at", f"[{H}] {C}, {P}, {P} {C} -> [{W}] {C}", [z(H, C), zi(0), z(0, C)], {}),
